@@ -322,18 +322,15 @@ def mkScan (σ : Store) (a : Args) (ls rs ts cols pages : List Nat) : Res (Store
   let σ ← setScanId (σ.size + 1) σ n a.id
   return (σ, .node n)
 
-/-- `PageXMLTableCell(..., lines=ls)`: the lines are attached, then `" ".join(line.text …)`
-    raises TypeError when a line has no text — the half-built cell stays the lines' parent -/
+/-- `PageXMLTableCell(..., lines=ls)`: the lines are attached; the cell value joins the texts of
+    the lines that have one (since the repair d748213 a line without text no longer raises) -/
 def mkCell (σ : Store) (a : Args) (ls : List Nat) : Store × Out :=
   let n := σ.size
   let nd := docInit .cell a "table_cell"
   let nd := { nd with mainType := "table_cell", lines := ls }
   let σ := σ.alloc nd
   let σ := setAsParent σ n ls
-  if ls.any (fun l => match σ.get? l with | some ln => ln.text.isNone | none => true) then
-    (σ, .raised .TypeError)
-  else
-    (σ.upd n (·.addTypeIf a.dtype), .node n)
+  (σ.upd n (·.addTypeIf a.dtype), .node n)
 
 /-- `PageXMLTableRow(..., cells=cs)` (cells with one common row index and integer columns;
     the constructor does not link the cells; `cells[0].row` raises IndexError for `cells=[]`
